@@ -10,7 +10,7 @@ from ..cxx_ir import CALL_KINDS, CTOR_KINDS
 from ..cfg import cfg_of
 from ..effects import PY, PYDEL, ONCE, external_effects
 from .common import (short, inst, live_funcs, calls_in, callee_func, member_path, enclosing_map,
-                     ancestors)
+                     ancestors, strip_casts)
 
 GUARD_TYPES = ('scoped_read_lock_guard', 'scoped_write_lock_guard', 'scoped_lock_guard',
                'scoped_recursive_lock_guard')
@@ -413,7 +413,7 @@ def t3(ctx):
         if not st:
             continue
         for cache, mutex in st.items():
-            emplaces = [c for c in calls_in(f.body, {'emplace', 'insert', 'try_emplace'})
+            emplaces = [c for c in calls_in(f.body, {'emplace', 'insert', 'try_emplace', 'insert_or_assign'})
                         if member_path(c.call_base()) == cache]
             if not emplaces:
                 continue
@@ -445,10 +445,13 @@ def t3(ctx):
                       '%s: cache grows without the MAX_TYPE_CACHE_SIZE cap' % inst(f), e.loc)
             # weakref on the same key with a callback that erases that key under the same mutex
             key_arg = member_path(e.call_args()[0]) if e.call_args() else None
-            wr = [c for s in region_stmts for c in s.find(*CTOR_KINDS)
+            # (anywhere in the function, under the same exclusive lock: the caller holds a reference
+            # to the type, so it cannot die between the insertion and a later registration)
+            all_reg_stmts = [s for r in regs for s in r[3]]
+            wr = [c for s in all_reg_stmts for c in s.find(*CTOR_KINDS)
                   if (c.type or '').endswith('weakref')]
             ok = False
-            why = 'no py::weakref created in the region'
+            why = 'no py::weakref created under the exclusive lock'
             for w in wr:
                 wa = w.kids
                 if not wa or member_path(wa[0]) != key_arg:
@@ -489,6 +492,19 @@ def t3(ctx):
                       'mutex when the type dies (no stale answer after address reuse)' % inst(f),
                       '%s: %s - a freed type can leave a stale cache entry that a new type at the '
                       'same address inherits' % (inst(f), why), e.loc)
+            # what is published is the recogniser's answer, never a placeholder another thread
+            # could read while the recogniser is still running user code
+            consts = [c for c in emplaces
+                      if len(c.call_args()) >= 2 and c.call_args()[1] is not None and
+                      strip_casts(c.call_args()[1]).kind in ('CXXBoolLiteralExpr', 'IntegerLiteral',
+                                                             'CXXNullPtrLiteralExpr')]
+            ctx.check(site + '/stores-the-answer', not consts,
+                      '%s: every value stored in `%s` is a computed answer' % (inst(f), cache),
+                      '%s: `%s` is filled with the constant `%s` before the answer is known: another '
+                      'thread that finds the entry meanwhile gets the placeholder (e.g. a namedtuple '
+                      'classified as a leaf)' % (inst(f), cache,
+                                                 consts[0].call_args()[1].text(3) if consts else ''),
+                      consts[0].loc if consts else e.loc)
     ctx.require(n >= 3, 'only %d type caches found (3 on the pinned tree)' % n)
 
 
